@@ -47,8 +47,15 @@ def transparency(ld, r, count):
             if obj is None or 'cycle' in set(node.ops()):
                 continue
             n += 1
-            snap = snapshot(obj)
+            # every plain observation first (a stage may memoise things such as its keys while it is used) ...
             plain = gen_a.obs_iter(obj, False)
+            a = gen_a.obs_call(lambda: len(obj))
+            plain_idx = []
+            if a[0] == 'ok' and a[1] <= 12:
+                plain_idx = [(i, gen_a.obs_call(lambda: obj[i])) for i in range(-a[1] - 1, a[1] + 1)]
+            pk = gen_a.obs_iter(obj.items(), False)
+            # ... then the wrapper: whatever it does must leave the wrapped object graph as it is now
+            snap = snapshot(obj)
             try:
                 prof = ld.core.ProfilingDataset(obj)
             except Exception as e:
@@ -59,17 +66,15 @@ def transparency(ld, r, count):
                                                      and repr(plain[0]) == repr(wrapped[0])):
                 fails.append(f'profiling changes the iteration of {gen_a.coq_prog(node)[:300]}: {plain!r} vs wrapped {wrapped!r}')
                 continue
-            a, b = gen_a.obs_call(lambda: len(obj)), gen_a.obs_call(lambda: len(prof))
+            b = gen_a.obs_call(lambda: len(prof))
             if (a[0] == 'ok') != (b[0] == 'ok') or (a[0] == 'ok' and a[1] != b[1]):
                 fails.append(f'profiling changes len of {gen_a.coq_prog(node)[:300]}: {a} vs {b}')
-            if a[0] == 'ok' and a[1] <= 12:
-                for i in range(-a[1] - 1, a[1] + 1):
-                    x, y = gen_a.obs_call(lambda: obj[i]), gen_a.obs_call(lambda: prof[i])
-                    if repr(x) != repr(y) and not (x[0] == 'err' and y[0] == 'err'):
-                        fails.append(f'profiling changes ds[{i}] of {gen_a.coq_prog(node)[:300]}: {x} vs {y}')
-                        break
+            for i, x in plain_idx:
+                y = gen_a.obs_call(lambda: prof[i])
+                if repr(x) != repr(y) and not (x[0] == 'err' and y[0] == 'err'):
+                    fails.append(f'profiling changes ds[{i}] of {gen_a.coq_prog(node)[:300]}: {x} vs {y}')
+                    break
             # key iteration: the wrapped items() pipeline yields what the plain one yields
-            pk = gen_a.obs_iter(obj.items(), False)
             try:
                 wk = gen_a.obs_iter(ld.core.ProfilingDataset(obj.items()), False)
             except Exception as e:
@@ -116,6 +121,16 @@ def raising(ld, r, count):
     return fails
 
 
+# (n, keyed, lower stages, upper stages): a frozen reshuffle above a stage that is not indexable is refused - with and without
+# the profiling wrapper, also when there is nothing to iterate (F20: the wrapper's `indexable` was a method, hence truthy)
+FIXED_FREEZE = [(0, False, ['localshuffle', 'map', 'reshuffle'], ['prefetchN']),
+                (0, True, ['filter', 'reshuffle'], ['prefetchN']),
+                (0, False, ['filter', 'reshuffle'], ['catch']),
+                (0, False, ['lazyapply', 'reshuffle'], ['prefetchN_catch']),
+                (3, False, ['localshuffle', 'reshuffle'], ['prefetchN']),
+                (1, True, ['filter', 'reshuffle'], ['lazyapply_top'])]
+
+
 def freeze_family(ld, r, count):
     """pipelines whose consumers ask their input for a frozen copy (catch, multi-worker prefetch, lazy apply) over
     stages that react to freezing (reshuffle per epoch, lazy apply) - plain vs. profiled, identically seeded"""
@@ -130,6 +145,8 @@ def freeze_family(ld, r, count):
             keyed = r.random() < 0.5
             lower = [r.choice(['map', 'reshuffle', 'reshuffle', 'lazyapply', 'localshuffle', 'filter', 'slice', 'shuffle1']) for _ in range(r.randint(1, 3))]
             upper = [r.choice(['catch', 'prefetchN', 'prefetchN_catch', 'lazyapply_top', 'catch_items', 'map'])for _ in range(r.randint(1, 2))]
+            if _ < len(FIXED_FREEZE):
+                n, keyed, lower, upper = FIXED_FREEZE[_]        # the repaired finding F20 and its neighbours replay first
 
             def build():
                 rng = np.random.RandomState(seed)
@@ -165,6 +182,22 @@ def freeze_family(ld, r, count):
                 wrapped = ('ctor', type(e).__name__)
             same = repr(plain) == repr(wrapped) or (plain[1] is not None and wrapped[0] != 'ctor' and wrapped[1] is not None
                                                     and plain[1][1] == 0 and wrapped[1][1] == 0 and repr(plain[0]) == repr(wrapped[0]))     # both refuse with a library error
+            # selections by an index list (empty, and the first position): refused on a pipeline that is not indexable - with the wrapper too
+            def sel(make):
+                out = []
+                for idx in ([], [0]):
+                    try:
+                        d = make()
+                        out.append(('ok', [repr(x) for x in d[idx]]))
+                    except Exception as e:
+                        out.append(('err', 'IndexError' if isinstance(e, IndexError) else 'some error'))
+                return out
+            try:
+                sp, sw = sel(build), sel(lambda: ld.core.ProfilingDataset(build()))
+                if sp != sw:
+                    fails.append(f'profiling changes what a selection ds[[]] / ds[[0]] of new(range({n}){" keyed" if keyed else ""}).{".".join(lower + upper)} delivers: {sp} vs wrapped {sw}')
+            except Exception as e:
+                fails.append(f'selection probe raised {type(e).__name__}: {e}'[:300])
             if not same:
                 fails.append(f'profiling changes the iteration of new(range({n}){" keyed" if keyed else ""}).{".".join(lower + upper)} (seed {seed}): {plain!r} vs wrapped {wrapped!r}')
     return fails
